@@ -309,7 +309,7 @@ seeded("w4-latin1", ["C08"], "W4", [(M, '''bcontent: bytes = content.encode("utf
 seeded("w5-wrong-verb", ["C08"], "W5", [(M, '''self.__send_command("DELETESCRIPT", [name.encode("utf-8")])''', '''self.__send_command("DELETSCRIPT", [name.encode("utf-8")])''')])
 seeded("w5-size-as-bytes", ["C08"], "W5", [(M, '''"HAVESPACE", [scriptname.encode("utf-8"), scriptsize]''', '''"HAVESPACE", [scriptname.encode("utf-8"), str(scriptsize).encode("utf-8")]''')], "number is sent quoted")
 seeded("w5-name-not-encoded-utf8", ["C08"], "W5", [(M, '''self.__send_command("SETACTIVE", [scriptname.encode("utf-8")])''', '''self.__send_command("SETACTIVE", [scriptname.encode("ascii", "ignore")])''')])
-seeded("w5-double-send", ["C08", "C15"], "W5", [(M, '''        code, data = self.__send_command("SETACTIVE", [scriptname.encode("utf-8")])''', '''        self.__send_command("SETACTIVE", [b""])
+seeded("w5-double-send", ["C08", "C15"], {"C08": "W5", "C15": "K2"}, [(M, '''        code, data = self.__send_command("SETACTIVE", [scriptname.encode("utf-8")])''', '''        self.__send_command("SETACTIVE", [b""])
         code, data = self.__send_command("SETACTIVE", [scriptname.encode("utf-8")])''')])
 seeded("w6-control-chars-quoted", ["C08"], "W6", [(M, '''                if b"\\r" in a or b"\\n" in a or b"\\0" in a:''', '''                if b"\\r\\n" in a:''')], "a lone LF or NUL is still put inside quotes")
 
@@ -325,3 +325,41 @@ benign("c08-not-in-tests", ["C08"], [(M, '''                if b"\\r" in a or b"
                     ret += [b'"' + a + b'"']
                 else:
                     ret += [b"{%d+}%s%s" % (len(a), CRLF, a)]''')])
+
+# --------------------------------------------------------------------------- C15
+seeded("k1-reply-not-read-without-args", ["C15"], "K1", [(M, '''        code, data, content = self.__read_response(nblines)
+
+        if isinstance(code, bytes):''', '''        if not args and not withcontent and name == "LOGOUT":
+            return (None, None)
+        code, data, content = self.__read_response(nblines)
+
+        if isinstance(code, bytes):''')], "LOGOUT's reply stays in the buffer for a reused connection object")
+seeded("k1-double-read", ["C15"], "K1", [(M, '''        code, data, content = self.__read_response(nblines)
+
+        if isinstance(code, bytes):''', '''        code, data, content = self.__read_response(nblines)
+        if code is None:
+            code, data, content = self.__read_response(nblines)
+
+        if isinstance(code, bytes):''')])
+seeded("k1-stray-reply-read", ["C15"], "K1", [(M, '''    def logout(self):''', '''    def drain(self):
+        return self.__read_response()
+
+    def logout(self):''')])
+seeded("k1-operation-reads-line", ["C15"], "K1", [(M, '''        code, data = self.__send_command("SETACTIVE", [scriptname.encode("utf-8")])''', '''        code, data = self.__send_command("SETACTIVE", [scriptname.encode("utf-8")])
+        if code == "NO":
+            self.__read_line()''')])
+seeded("k2-capability-twice", ["C15"], "K2", [(M, '''        code, data, capabilities = self.__send_command("CAPABILITY", withcontent=True)
+        if code == "OK":''', '''        code, data, capabilities = self.__send_command("CAPABILITY", withcontent=True)
+        if code == "NO":
+            code, data, capabilities = self.__send_command("CAPABILITY", withcontent=True)
+        if code == "OK":''')])
+seeded("k4-peek-without-consume", ["C15"], "K4", [(M, '''                ret = self.__read_buffer[:pos]
+                self.__read_buffer = self.__read_buffer[pos + len(CRLF) :]
+                break''', '''                ret = self.__read_buffer[:pos]
+                if ret.startswith(b"BYE"):
+                    break
+                self.__read_buffer = self.__read_buffer[pos + len(CRLF) :]
+                break''')])
+benign("c15-sender-early-return-same", ["C15"], [(M, '''        if withcontent:
+            return (code, data, content)
+        return (code, data)''', '''        return (code, data, content) if withcontent else (code, data)''')])
